@@ -5,6 +5,10 @@ legs: MC   TLC runs the statement machine of Statements.tla (rewrite into the te
            every small ledger x statement shape and checks that what it delivers is the DECLARATIVE meaning
            (per-account sums in type-then-name order; register with running balance of the matching postings; the
            directives whose FROM expression is TRUE).  Four deliberately broken expansions must be rejected.
+           A posting row has two objects behind it, the posting and its transaction, and BOTH have a flag: postings
+           of the pool carry flags of their own (other than / equal to their transaction's); the register and the
+           column `flag` in FROM / WHERE mean the transaction's (posting_flag the posting's).  A mechanism that reads
+           `flag` from the posting first must be rejected.
            StatementsSession.tla is the grain above: connections with their registered table objects and SESSIONS
            (sequences of statements, each deriving its table by update() = shallow copy and scanning prepare());
            invariant: every statement is evaluated on (ledger of its connection, its OWN clauses) whatever ran
@@ -27,7 +31,9 @@ legs: MC   TLC runs the statement machine of Statements.tla (rewrite into the te
            that loaded the same file and executed nothing else.
       C2S  the Beancount example ledger and random ledgers: every shape of the big table (filters x OPEN / CLOSE / CLEAR
            subsets x summary functions x account patterns) is run short vs expanded (rows + description equal) and the
-           observed rows are logged next to the summarised posting / directive table; TLC (Trace_Statements) judges
+           observed rows are logged next to the summarised posting / directive table (both read off the directives
+           attribute by attribute, never through the columns the statements use; random ledgers have postings with
+           flags, prices and metadata of their own); TLC (Trace_Statements) judges
            every line with the operators of the specification.  All statements of a ledger run on ONE shell /
            connection (groups in seeded random order, then a stratified random session with repeated statements);
            every summarised table the lines are judged against is obtained on a connection of its own that executes
@@ -278,7 +284,9 @@ def build_pool_ledger(tables, led):
             last = item['txn']
         cur, cost, num = item['lot']
         c = None if cost == NOCOST else position.Cost(D(cost[0]), cost[1], from_ymd(cost[2]), None)
-        entries[-1].postings.append(data.Posting(item['account'], amount.Amount(D(num), cur), c, None, None, None))
+        # a posting may carry a flag of its own, next to the flag of its transaction
+        entries[-1].postings.append(data.Posting(item['account'], amount.Amount(D(num), cur), c, None,
+                                                 item['pflag'][0] if item['pflag'] else None, None))
     return entries
 
 
@@ -631,7 +639,13 @@ def random_ledger(rng, ntxn):
                 units = amount.Amount(D(rng.randint(-40, 40)) / 2 or D(3), rng.choice(['VBMPX', 'RGAGX']))
                 cost = position.Cost(D(rng.choice([100, 105, 1105, 120])) / 10, 'USD',
                                      rng.choice([day, datetime.date(2019, 6, 1), datetime.date(2020, 2, 3)]), None)
-            posts.append(data.Posting(acc, units, cost, None, None, None))
+            # what a posting can carry besides account, units and cost: a flag of its own (a transaction has one
+            # too), a price annotation, metadata (a transaction has its own)
+            pflag = rng.choice([None, None, None, None, '!', '!', '*'])
+            price = amount.Amount(D(rng.choice([125, 110, 90])) / 100, 'USD') if cost is None and units.currency != 'USD' \
+                and rng.random() < 0.3 else None
+            pmeta_ = rng.choice([None, None, None, {'note': 'to be checked'}, {'flag': 'P', 'ref': 'a-17'}])
+            posts.append(data.Posting(acc, units, cost, price, pflag, pmeta_))
         entries.append(data.Transaction({'filename': '<r>', 'lineno': n}, day, rng.choice(['*', '*', '*', '!']),
                                         rng.choice(PAYEES), rng.choice(NARRS), frozenset(), frozenset(), posts))
         if rng.random() < 0.15:
@@ -712,14 +726,28 @@ class Recorder:
         self.f.close()
 
 
+SUMMARY = {'none': lambda pos: pos}
+
+
 def posting_table(conn, f, fc):
-    """the summarised posting table with the summary function applied, through an independent SELECT of plain columns"""
-    fexpr = 'position' if f == 'none' else '%s(position)' % f
-    ct = clause_text(fc)
-    text = 'SELECT date, flag, payee, narration, account, %s AS p, other_accounts, currency%s' % (fexpr, (' FROM ' + ct) if ct else '')
-    d, rows = run_stmt(conn, text)
-    if isinstance(d, str):
-        raise MachineryError('posting table query failed: %s %s' % (d, rows))
+    """the summarised posting table with the summary function applied, read off the DIRECTIVES: the transactions of the
+    entry list after OPEN / CLOSE / CLEAR (BeanTable.prepare, taken as given) and their postings, attribute by
+    attribute.  No column of the postings table is involved -- the columns are what BALANCES / JOURNAL and their
+    expansions go through, so a table obtained through them cannot tell what a column should have returned.
+    rows: (date, flag, payee, narration of the transaction; account, [f of] position, accounts of the transaction,
+    currency, flag of the posting)"""
+    from beancount.core import convert, data, position
+    if len(SUMMARY) == 1:
+        SUMMARY.update(units=convert.get_units, cost=convert.get_cost)
+    fn = SUMMARY[f]
+    rows = []
+    for e in conn.tables['postings'].update(**clause_kwargs(fc)).prepare():
+        if not isinstance(e, data.Transaction):
+            continue
+        accounts = {p.account for p in e.postings}
+        for p in e.postings:
+            rows.append((e.date, e.flag, e.payee, e.narration, p.account, fn(position.Position(p.units, p.cost)), accounts,
+                         p.units.currency, p.flag))
     return rows
 
 
@@ -832,7 +860,7 @@ class Oracle:
             table_in_domain(rows)
             o['scales'], o['kscale'] = scales, kscale = scale_table(rows)
             o['posts'] = [[ymd(r[0]), opt(r[1]), opt(r[2]), opt(r[3]), r[4], proj_lot(r[5], scales, kscale),
-                           sorted(set(r[6]) | {r[4]}), r[7]] for r in rows]
+                           sorted(set(r[6]) | {r[4]}), r[7], opt(r[8])] for r in rows]
         except OutOfDomain:
             o['in_domain'] = False
         return o
@@ -1219,8 +1247,12 @@ def run(ctx):
         'account patterns are literal or ^prefix patterns over [-0-9:A-Za-z_]; the case-insensitive search of the code is modelled',
         'numbers are integers in minor units (< 2^31) per currency; other cases are skipped and counted',
         'column names are compared modulo blanks, case and doubled parentheses (they derive from the source text)',
-        'the entry list after OPEN / CLOSE / CLEAR is taken as given (BeanTable.prepare / an independent SELECT, each on a '
-        'connection of its own that executes nothing else): C13 judges it',
+        'the entry list after OPEN / CLOSE / CLEAR is taken as given (BeanTable.prepare on a connection of its own that '
+        'executes nothing else): C13 judges it; the posting table TLC judges against is read off those directives '
+        '(transaction: date, flag, payee, narration; posting: account, units, cost, own flag), the summary function '
+        'applied with beancount.core.convert.get_units / get_cost',
+        'the flag of the register (and the column flag in FROM / WHERE) is the flag of the transaction, as the column '
+        'documents; the flag a posting carries itself is posting_flag',
         'a result is a function of (ledger, statement): the statements of a ledger share one shell / connection and what '
         'ran before must not matter (StatementsSession.tla); S2C sessions compare with a connection that executed nothing else',
         'what a statement returns does not depend on how it is submitted (typed, or stored in the ledger by a query '
@@ -1240,11 +1272,11 @@ def run(ctx):
     # ---- MC
     if want('MC'):
         import concurrent.futures as cf
-        # the four non-vacuity runs (small, they stop at the first counterexample) run next to the exhaustive one
-        with cf.ThreadPoolExecutor(11) as pool:
+        # the five non-vacuity runs (small, they stop at the first counterexample) run next to the exhaustive one
+        with cf.ThreadPoolExecutor(12) as pool:
             futs = [pool.submit(ctx.tlc, 'MC_Statements', 'MC_Statements_%s.cfg' % v, leg='MC-nonvacuity',
                                 expect_violation='DenoteIsMeaning', workers=2, jvm=JVM)
-                    for v in ('no_where', 'order_by_name', 'balance_raw', 'print_keeps_null')]
+                    for v in ('no_where', 'order_by_name', 'balance_raw', 'print_keeps_null', 'flag_of_posting')]
             # sessions: results do not depend on what a connection (or another one) executed before; mechanisms that
             # keep state across statements on the table object / the registered object / the class are rejected, and so
             # is a shell that applies the default closing date of `.run` to a stored PRINT
